@@ -125,7 +125,10 @@ func (c *opsCase) expectLast(want string) {
 	c.tc.expect[len(c.tc.ops)-1] = want
 }
 
-var setStrPool = []string{"", "x", "hello", "\"quoted\"\n", "é中", "\x00\x1f", strings.Repeat("long", 40)}
+var setStrPool = []string{"", "x", "hello", "\"quoted\"\n", "é中", "\x00\x1f", strings.Repeat("long", 40),
+	// replacements that make the string buffer grow past 1 KiB, 2 KiB, 8 KiB (append reallocates; every holder of the
+	// ParsedJson must see the new buffer)
+	strings.Repeat("A", 1500), strings.Repeat("B", 3100), strings.Repeat("C", 9000)}
 
 // oneEdit applies one random in-place edit on document "p".
 func (c *opsCase) oneEdit(roots []*node) { c.oneEditOn(roots, "p") }
@@ -665,12 +668,17 @@ func allContainers(roots []*node) bool {
 // marshalCallbacks marshals iterators handed to the last ForEach's callbacks: each must render its own value.
 func (c *opsCase) marshalCallbacks(n *node) {
 	for k, ch := range n.children {
-		if k >= 3 {
-			break
+		if k >= 3 && k != len(n.children)-1 {
+			continue
 		}
 		c.emit(fmt.Sprintf("copyiter cbm cb%d", k))
 		ms := c.emit("marshal cbm")
 		c.checkValueText(ms, ch)
+		// Interface() of an iterator positioned by the enclosing walk (not by Root/FindKey): the value itself — in
+		// particular a container that is the last member of its parent
+		c.emit(fmt.Sprintf("copyiter cbi cb%d", k))
+		c.emit("interface cbi")
+		c.expectLast(ch.ifaceStr())
 	}
 }
 
